@@ -535,12 +535,15 @@ func (w *worker[T, JobType]) start() error {
 		return ErrRunningWorker
 	}
 
+	// deferred calls run last-in-first-out: the context listener is started last, after the status
+	// is Running, because it calls Stop() and Stop() ignores a worker that is not running yet
+	// (an already cancelled context would otherwise leave the worker running for ever)
+	defer w.goListenToContext()
 	defer w.notifyToPullNextJobs()
 	defer w.status.Store(running)
 
 	w.goEventLoop()
 	w.goRemoveIdleWorkers()
-	w.goListenToContext()
 
 	// init the first worker by default
 	w.pool.PushNode(w.initPoolNode())
